@@ -25,23 +25,30 @@ from vlib import cstr, cz, cbool, clist, cnat  # noqa: E402
 from translate import createsigs as tsig  # noqa: E402
 
 CLAIM = {
-    "text": "Unbounded theorems over ONE parametric model of all 28 create functions (any schema, any call "
-            "sequence of single/bulk, accepted or rejected, from any empty net): unique labels + referential "
-            "integrity invariant, rejection of missing junction / pipe / std type, unconnected pipe, duplicate "
-            "label, unequal bulk lengths, missing p and t; atomicity of every rejection that happens before the "
-            "row write; accepted calls add exactly the requested rows; bulk = left fold of the single twin with "
-            "consecutive labels from max+1; total decision table of the ext-grid type inference, scalar = "
-            "vectorised on allowed types. The per-function schemas are regenerated from create.py on every run and "
-            "five computed theorems pin what they say (all reference columns checked / no failure after the write / "
-            "twin defaults equal, each up to a listed set of known exceptions). The model is tied to the code by an "
-            "exact correspondence evaluated inside Coq for every function and every fault kind at every reference "
-            "position, plus deep-snapshot atomicity, bulk-vs-fold and std-type-vs-parameters differentials.",
-    "note": "All theorems closed under the global context (no axioms). Refuted at full strength and kept visible: "
-            "atomicity for failures after the row write (geodata), scalar=vector for unknown types. pandas dtype "
-            "coercion, pandapower index helpers are oracles exercised by the correspondence. Value (non-reference) "
-            "arguments are an abstract payload in the model; they are covered by the differential monitors only.",
-    "technique": "Coq proof over hand-written parametric model + schemas generated from the AST + exact "
-                 "model/implementation correspondence inside Coq + differential monitors",
+    "text": "Unbounded theorems over ONE parametric model (NetDB) of all 28 create functions, for any schema, any call "
+            "sequence (single / bulk, accepted, rejected or failing late) from any empty net: unique labels + referential "
+            "integrity invariant (all reference columns for every generated function except create_pump_from_parameters); "
+            "rejection of missing junction / pipe / std type, unconnected pipe, unknown et, duplicate or existing label, "
+            "unequal bulk lengths, one bad row, missing p and t; atomicity of every rejection that precedes the row write; "
+            "accepted calls add exactly the requested rows WITH THEIR VALUES: every value column holds the argument passed "
+            "for the parameter that feeds it, else the signature's literal default, else None (column -> parameter map, "
+            "defaults and 'computed' columns generated from the AST of create.py; canonical dtype-free cell encoding); "
+            "bulk = left fold of the single twin with consecutive labels from max+1; total decision table of the ext-grid "
+            "type inference, scalar = vectorised on allowed types. Twelve computed theorems pin what the regenerated "
+            "schemas say (checked reference columns, no failure after the write, twin shapes / columns / defaults equal, "
+            "arguments land in the column of their name, computed columns, index-length check), each with its listed "
+            "exceptions = known findings. Tie: exact correspondence inside Coq (outcome, labels, reference columns, value "
+            "cells of the new rows, std-type count) for every function x fault kind x reference position x base net.",
+    "note": "All 34 theorems closed under the global context (no axioms). Kept visible as refuted: atomicity for failures "
+            "after the row write (geodata of the bulk / pipe functions), scalar = vector for unknown types. Columns computed "
+            "by the function (std-type parameters of create_pipe(s) - their values are C19.std_type_reaches_pipe_unchanged -, "
+            "inferred ext-grid type, clamped storage level) are 'Derived' and only covered by the differential monitors "
+            "(std-type vs parameters for all 286 library types, bulk vs fold, Series arguments, reuse of std types, thermal "
+            "default run). bool(x) columns are modelled for Python bools only. pandas dtype coercion and pandapower index "
+            "helpers are oracles exercised by every case; deprecated keywords (alpha_w_per_m2k, diameter_m, qext_w) are outside "
+            "the model. create_pressure_control is driven with check_controllability=False.",
+    "technique": "Coq proof over hand-written parametric model + schemas (references, column map, defaults) generated from the "
+                 "AST + exact model/implementation correspondence inside Coq + differential monitors",
     "design": "DESIGN.md 4/C16 + design_notes/C16.md",
 }
 GEN = [("CreateSigs", lambda: tsig.generate()[0])]
@@ -82,7 +89,7 @@ def base_nets(ctx):
         return f
 
     nets = [("fresh4", fresh(4)), ("sparse", small([7, 3, 12, 5], "water")), ("large", small([100005, 3, 100001, 9], "lgas"))]
-    n_gen = 2 if ctx.quick else 12
+    n_gen = 1 if ctx.quick else 12
     for i in range(n_gen):
         for prof in ("water", "gas", "heat"):
             for _ in range(20):
